@@ -59,6 +59,14 @@ class Dot(MatContract):
     op = staticmethod(M.dot); SPEC = MCONV; npop = staticmethod(numpy.dot)
     def cell_shapes(self, cfg): return {'x_data': (2, 3), 'y_data': (3, 2), 'out': (2, 2)} if self.npop is numpy.dot else {'x_data': (3,), 'y_data': (2,), 'out': (3, 2)}
     def oracle(self, inp, scal, cfg): return {'out': _conv(inp['x_data'], inp['y_data'], self.npop)}
+    def spec_lemmas(self, c):
+        # causality of the matrix Cauchy products: coefficient n depends on the coefficients <= n of both operands only
+        T, DEF = self.SPEC, self.sdef_static
+        a = z3.Const('a!mc', MARR); b = z3.Const('b!mc', MARR); a2 = z3.Const('a2!mc', MARR); b2 = z3.Const('b2!mc', MARR); n = z3.Int('n!caus'); i = z3.Int('i!caus')
+        hyps = [n >= 0, z3.ForAll([i], z3.Implies(z3.And(0 <= i, i <= n), z3.And(a[i] == a2[i], b[i] == b2[i])))] + DEF(c, a, b, n) + DEF(c, a2, b2, n)
+        return [('causality of %s: coefficient n depends on input coefficients <= n only' % T.name(), hyps, T(a, b, n) == T(a2, b2, n), ())]
+    @property
+    def sdef_static(self): return mconv_def if self.SPEC is MCONV else mouter_def
     def sdef(self, c, n): return mconv_def(c, c.pre['x_data'], c.pre['y_data'], n)
     def ensures(self, c):
         x, y = c.pre['x_data'], c.pre['y_data']; o = c.cur('out')
@@ -260,3 +268,40 @@ class SolveNonUTPMx(MatContract):
             return [c.forall(0, d, lambda j: y[j] == MSOLVEC(a, self.xc(c), j)),
                     c.scalar('tmp') == c.Sum(z3.IntVal(0), k - 1, g_solvec(a, lambda j: y[j], d))] + c.unchanged('A_data')
         return {1: inv1, 3: inv3}
+
+
+# ---------------------------------------------------------------------------------------------- transposition and the pullback of inv
+@register
+class Transpose(MatContract):
+    """_transpose(a): every matrix cell transposed (a pure function of the coefficients; the result is a view in NumPy, nothing is written)"""
+    qual = A('_transpose'); arrays = ('a_data',); scalars = {'axes': 'none'}; modifies = (); returns = 'elementwise'
+    cfgs = {'distinct': {'axes': None}}
+    property_ids = ('C07', 'C13')
+    def ret_elem(self, c, i): return M.f_T(c.pre['a_data'][i])
+    def ensures(self, c): return []
+
+
+def lam(f):
+    i = z3.FreshInt('i!lam'); return z3.Lambda([i], f(i))
+
+@register
+class InvPullback(MatContract):
+    """y = inv(x):  xbar' = xbar - y^T (*) (ybar (*) y^T)   (matrix Cauchy products; the adjoint of the matrix inverse, coefficient level)"""
+    qual = A('_inv_pullback'); arrays = ('ybar_data', 'x_data', 'y_data', 'out'); modifies = ('out',); returns = 'out'
+    cfgs = {'distinct': {}}
+    property_ids = ('C03', 'C06', 'C07', 'C14')
+    dataflow = True; cex_D = (); timeout_ms = 8000
+    def axioms(self, alg): return M.basic
+    def ensures(self, c):
+        p = c.pre; o0 = p['out']; o = c.cur('out'); yT = lam(lambda i: M.f_T(p['y_data'][i]))
+        t1 = lam(lambda i: MCONV(p['ybar_data'], yT, i))
+        return [("xbar' = xbar - y^T (*) (ybar (*) y^T)", c.forall(0, c.D, lambda j: o[j] == M.sub(o0[j], MCONV(yT, t1, j))))]
+    def cell_shapes(self, cfg): return {'ybar_data': (3, 3), 'x_data': (3, 3), 'y_data': (3, 3), 'out': (3, 3)}
+    def oracle(self, inp, scal, cfg):
+        yT = [m.T for m in inp['y_data']]; t1 = _conv(inp['ybar_data'], yT, numpy.dot); t2 = _conv(yT, t1, numpy.dot)
+        return {'out': [a - b for a, b in zip(inp['out'], t2)]}
+
+
+from . import spec as _S
+_S.CAUSAL['MCONV'] = (MCONV, lambda *a: [])
+_S.CAUSAL['MOUTERCONV'] = (MOUTER, lambda *a: [])
